@@ -17,14 +17,14 @@ import (
 // C04 — cmdline blocks match every listed command with anti-evasion tokens interleaved.
 
 type c04Case struct {
-	Kind      string     `json:"kind"`  // unix | windows
-	Words     []string   `json:"words"` // lines of the cmdline block
+	Kind      string     `json:"kind"`     // unix | windows
+	Words     []string   `json:"words"`    // lines of the cmdline block
 	Surround  string     `json:"surround"` // bare | entries | nested | include
 	CfgName   string     `json:"cfg_name"`
-	CfgYAML   string     `json:"cfg_yaml"`   // "-" absent, "<dir>" a directory in place of the file
-	CfgFlag   string     `json:"cfg_flag"`   // value for -f ("" = default toolchain.yaml)
-	Effective evasionCfg `json:"effective"`  // what the statement says is in force
-	Exact     bool       `json:"exact"`      // patterns are concatenation-safe: the exact comparison with the reference applies too
+	CfgYAML   string     `json:"cfg_yaml"`  // "-" absent, "<dir>" a directory in place of the file
+	CfgFlag   string     `json:"cfg_flag"`  // value for -f ("" = default toolchain.yaml)
+	Effective evasionCfg `json:"effective"` // what the statement says is in force
+	Exact     bool       `json:"exact"`     // patterns are concatenation-safe: the exact comparison with the reference applies too
 	Seed      int64      `json:"seed"`
 }
 
@@ -380,7 +380,7 @@ func c04Gen(r *rand.Rand) *c04Case {
 	}
 	for i := 0; i < n; i++ {
 		if core.Chance(r, 1, 12) {
-			c.Words = append(c.Words, "'"+core.Pick(r, "x[yz]+", "foo|bar", `a\.b`, `q\d+`))
+			c.Words = append(c.Words, "'"+core.Pick(r, "x[yz]+", "foo|bar", `a\.b`, `q\d+`, "user@", "[a-c]+~", `mail\@`, `x\~`, "p q"))
 		} else {
 			c.Words = append(c.Words, word())
 		}
